@@ -81,7 +81,7 @@ func Main() {
 			s = string(b)
 		}
 		res := engine.SafeExec(p, s)
-		_ = json.NewEncoder(os.Stdout).Encode(&res)
+		_ = json.NewEncoder(engine.ProtoOut()).Encode(&res)
 	case "enum":
 		// debugging aid: print the first cases of the tier
 		k := 0
